@@ -250,7 +250,8 @@ theorem v2_C01_representable (s : Schema) (x y : Snap) (h : Spec.normalize s x =
                 rcases hw with hw | ⟨hlen, hop, n, r, t, hn, hr, ht, hsz⟩
                 · simp [Spec.normWaveform, hw] at hnw; rw [hw]; exact hnw
                 · have hne : x.waveform ≠ [] := by intro hh; rw [hh] at hlen; simp at hlen
-                  simp only [Spec.normWaveform, hne, if_false, hn, hr, ht, hsz, Option.some.injEq] at hnw
+                  simp only [Spec.normWaveform, hne, if_false, hn, hr, ht, hsz, (by decide : ¬ (1024 : Nat) = 0),
+                    Option.some.injEq] at hnw
                   rw [← hnw]
                   exact overview_of_overview _ hlen hop
 
